@@ -105,6 +105,7 @@ def constStr : Val → R String
 def callMember (w : World) (fromV : Val) (name : String) (args : List Val) : R Val :=
   let fields : Option (List (String × Val)) := match fromV with
     | .map kvs => some kvs
+    | .tmap _ _ kvs => some kvs
     | .struct _ _ fs => some fs
     | _ => none
   match fields with
